@@ -1417,6 +1417,8 @@ class SymEx:
             if bl is None:
                 return None
             return ('lv', bl[1], bl[2] + (('i', self.eval(st, e.k[1])),))
+        if op == 'lvref':
+            return e.a['lv']
         if op == 'mcall' and e.a.get('name') in ('at', 'front', 'back') and \
                 is_vector_type(e.a.get('objtype')):
             bl = self.eval_lv(st, e.k[0])
@@ -1854,7 +1856,16 @@ class SymEx:
             vals = [self.eval(st, a) for a in args]
             self.effect(st, 'mpi', name=name, args=vals, argnodes=args, where=e.where(), node=e.cid)
             # out parameters
-            for a in args:
+            for ai_, a in enumerate(args):
+                if name == 'MPI_Allreduce' and ai_ == 1 and not (a.op == 'un' and a.a.get('o') == '&'):
+                    # receive buffer given as a pointer value (v.data(), a pointer variable)
+                    pv = vals[ai_]
+                    if isinstance(pv, tuple) and pv and pv[0] == 'ptr' and is_lv(pv[1]):
+                        lv = pv[1]
+                        root_lv = ('lv', lv[1], lv[2][:-1]) if lv[2] and lv[2][-1][0] == 'i' else lv
+                        cur = self.read(st, root_lv)
+                        self.write(st, root_lv, ('allreduce', cur))
+                    continue
                 if a.op == 'un' and a.a.get('o') == '&':
                     lv = self.eval_lv(st, a.k[0])
                     if lv is not None and name in ('MPI_Comm_rank', 'MPI_Comm_size'):
@@ -1868,6 +1879,25 @@ class SymEx:
         if name in ('setprecision', 'setw', 'setfill'):
             vals = [self.eval(st, a) for a in args]
             return ('manip', name) + tuple(vals)
+        if name in ('generate', 'generate_n', 'for_each', 'fill', 'fill_n', 'transform') and len(args) >= 3:
+            r_ = self.std_loop_algorithm(st, e, name, args)
+            if r_ is not None:
+                return r_
+        if name in ('copy', 'copy_n') and len(args) == 3 and name == 'copy_n':
+            a_ = self.eval(st, args[0])
+            n_ = self.eval(st, args[1])
+            d_ = self.eval(st, args[2])
+            if all(isinstance(v_, tuple) and v_ and v_[0] == 'iter' for v_ in (a_, d_)) and is_lv(d_[1]):
+                srcv = self.read(st, a_[1]) if is_lv(a_[1]) else a_[1]
+                cur = self.read(st, d_[1])
+                b2 = add(a_[2], n_)
+                if d_[2] == ZERO and n_ == size(cur):
+                    new = srcv if (a_[2] == ZERO and b2 == size(srcv)) else ('vslice', srcv, a_[2], b2)
+                else:
+                    new = ('vcopy', cur, d_[2], srcv, a_[2], b2)
+                self.write(st, d_[1], new)
+                self.effect(st, 'ext', name='std::copy_n', args=[a_, n_, d_], where=e.where(), node=e.cid)
+                return ('ext', self.fresh('copy_n'))
         if name in ('copy', 'iota', 'stable_sort', 'sort', 'transform', 'fill', 'reverse'):
             vals = [self.eval(st, a) for a in args]
             # destination range is overwritten
@@ -2060,6 +2090,16 @@ class SymEx:
             if lv is not None:
                 self.write(st, lv, ('vpush', vec, val))
             return ('void',)
+        if name == 'insert' and len(args) == 3 and lv is not None:
+            # v.insert(v.end(), n, value): n copies appended (the form of a counting loop of push_backs)
+            pos = self.eval(st, args[0])
+            if isinstance(pos, tuple) and pos and pos[0] == 'iter' and pos[2] == size(vec):
+                n_ = self.eval(st, args[1])
+                val = self.eval(st, args[2])
+                if not (isinstance(n_, tuple) and n_ and n_[0] == 'iter'):
+                    kk = sym(self.fresh('k@ins'))
+                    self.write(st, lv, ('vcomp', vec, kk, ZERO, n_, TRUE, val))
+                    return ('void',)
         if name == 'resize':
             vals = [self.eval(st, a) for a in args if a.op != 'defaultarg']
             if lv is not None:
@@ -2157,6 +2197,83 @@ class SymEx:
         val = self.read(st, tmp)
         st.env.pop(tmp[1], None)
         return val
+
+    def e_term(self, st, e):
+        return e.a['term']
+
+    def e_lvref(self, st, e):
+        return self.read(st, e.a['lv'])
+
+    def std_loop_algorithm(self, st, e, name, args):
+        """std::generate / generate_n / for_each / fill / fill_n / unary transform over a range of an
+        addressable container with an inlinable callable: executed as the equivalent counting loop
+        (same element order), so that draws and element-wise updates are seen by the loop summaries.
+        Returns None when the call does not have that shape (the caller falls back to the opaque
+        model)."""
+        a = self.eval(st, args[0])
+        if not (isinstance(a, tuple) and a and a[0] == 'iter' and is_lv(a[1])):
+            return None
+        base = a[1]
+        lo = a[2]
+        if name in ('generate_n', 'fill_n'):
+            hi = add(lo, self.eval(st, args[1]))
+            rest = args[2:]
+        else:
+            b = self.eval(st, args[1])
+            if not (isinstance(b, tuple) and b and b[0] == 'iter' and b[1] == base):
+                return None
+            hi = b[2]
+            rest = args[2:]
+        self._synth = getattr(self, '_synth', 0) + 1
+        vid = 'k%d@%s' % (self._synth, e.cid)
+        loc = e.loc
+
+        def var():
+            return N('var', ty='unsigned long', loc=loc, id=vid, name='k')
+
+        def elem(lv, off=None):
+            idx = var() if off is None else N('bin', [var(), N('term', term=off, loc=loc, ty='unsigned long')],
+                                               loc=loc, o='+', ty='unsigned long')
+            return N('index', [N('lvref', lv=lv, loc=loc), idx], loc=loc)
+
+        def callf(fnode, fargs):
+            fv = self.eval(st, fnode)
+            if not (isinstance(fv, tuple) and fv and fv[0] == 'lambda'):
+                return None
+            return N('opcall', [fnode] + fargs, loc=loc, cid=e.cid, opname='operator()')
+        if name in ('generate', 'generate_n'):
+            c = callf(rest[0], [])
+            if c is None:
+                return None
+            stmt = N('assign', [elem(base), c], loc=loc, o='=')
+        elif name == 'for_each':
+            c = callf(rest[0], [elem(base)])
+            if c is None:
+                return None
+            stmt = c
+        elif name in ('fill', 'fill_n'):
+            stmt = N('assign', [elem(base), rest[0]], loc=loc, o='=')
+        elif name == 'transform' and len(rest) == 2:
+            d = self.eval(st, rest[0])
+            if not (isinstance(d, tuple) and d and d[0] == 'iter' and is_lv(d[1])):
+                return None
+            c = callf(rest[1], [elem(base)])
+            if c is None:
+                return None
+            off = None if d[2] == lo else sub(d[2], lo)
+            stmt = N('assign', [elem(d[1], off), c], loc=loc, o='=')
+        else:
+            return None
+        init = N('decl', [N('term', term=lo, loc=loc, ty='unsigned long')], loc=loc, id=vid, name='k',
+                 type='unsigned long')
+        cond = N('bin', [var(), N('term', term=hi, loc=loc, ty='unsigned long')], loc=loc, o='!=', ty='bool')
+        inc = N('un', [var()], loc=loc, o='++')
+        loop = N('for', [init, cond, inc, N('block', [N('expr', [stmt], loc=loc)], loc=loc)], loc=loc,
+                 cid='synth%d@%s' % (self._synth, e.cid))
+        comps = self.exec_loop(st, loop)
+        if comps is not None:
+            raise AnalysisBroken('callable handed to std::%s leaves the loop at %s' % (name, e.where()))
+        return ('ext', self.fresh(name))
 
     def stream_call(self, st, e, name, objnode, args):
         s = self.eval(st, objnode)
